@@ -257,12 +257,30 @@ def pmap(fn, items, workers=None, chunksize=1):
     ctx = mp.get_context("fork")
     out = [None] * len(items)
     with ctx.Pool(workers) as pool:
-        for i, res, err in pool.imap_unordered(
-                _pool_call, list(enumerate(items)), chunksize):
+        # a worker killed from outside (out of memory) loses its task and
+        # the pool would wait for ever: the pool replaces it under a new
+        # pid, which is how its death is noticed here
+        pids = {p.pid for p in pool._pool}
+        it = pool.imap_unordered(_pool_call, list(enumerate(items)),
+                                 chunksize)
+        done = 0
+        while done < len(items):
+            try:
+                # (with chunksize > 1 the pool hands back a plain generator
+                # without a timeout: small fast items, no watch)
+                i, res, err = (it.next(timeout=20) if hasattr(it, 'next')
+                               else next(it))
+            except mp.TimeoutError:
+                if not pids <= {p.pid for p in pool._pool}:
+                    pool.terminate()
+                    raise HarnessFault("a worker process died (killed "
+                                       "from outside, e.g. out of memory)")
+                continue
             if err is not None:
                 pool.terminate()
                 raise HarnessFault("worker failed:\n" + err)
             out[i] = res
+            done += 1
     return out
 
 
